@@ -453,10 +453,10 @@ def run(ctx):
         canary = len(terms)
         terms.append(case_lit(inst0, bad, decs0))
     mism, err = ctx.coq_mismatches("arc", ac.HEADER, "c05case", "check_c05case", terms, shard=12)
-    if canary is not None and not err:
-        if not any(idx == canary for idx, _ in mism):
+    if canary is not None:
+        if not err and not any(idx == canary for idx, _ in mism):
             ctx.tooling_failure("correspondence/canary", "a deliberately wrong case was not flagged by the Coq comparison")
-        mism = [(i, t) for i, t in mism if i != canary]
+        mism = [(i, t) for i, t in mism if i < canary]
     for idx, tags in mism[:2]:
         inst, obs, decs = cases[idx]
         if fails(inst, nmax):
